@@ -458,9 +458,120 @@ def run_case(seed, idx):
     return info, fails, nchecks
 
 
+# ------------------------------------------------------------------- small imaginary part next to a large real part
+# Contract tested (what HEAD does, `np.isclose(float(val.imag), 0)` / `np.allclose(results.imag, 0)`): an imaginary
+# part with |Im| <= 1e-8 ABSOLUTE may be dropped (a float / real array comes back); anything larger must be kept,
+# however small it is relative to the real part.  Real and imaginary parts are compared separately, each with a
+# tolerance relative to its own magnitude (plus a rounding floor 1e-12 * |x||psi||O|).
+DROP = 1.001e-8
+
+
+def part_errors(val, ref, sc):
+    """list of (which, err, allowed) violated for one returned value against the dense reference"""
+    val, ref = complex(val), complex(ref)
+    bad = []
+    floor = 1e-12 * sc
+    tol_re = 1e-9 * abs(ref.real) + floor
+    if abs(val.real - ref.real) > tol_re:
+        bad.append(("re", abs(val.real - ref.real), tol_re))
+    err_im = abs(val.imag - ref.imag)
+    tol_im = 1e-6 * abs(ref.imag) + floor
+    if abs(ref.imag) <= DROP:
+        tol_im = max(tol_im, DROP)              # dropping is allowed
+    if err_im > tol_im:
+        bad.append(("im", err_im, tol_im))
+    return bad
+
+
+def run_smallimag_case(seed, idx):
+    rng = random.Random("c07-si-%d-%d" % (seed, idx))
+    nprng = np.random.default_rng([seed, idx, 11])
+    fails = []
+    n = rng.randint(1, 5)
+    variant = rng.choice(["nonherm-sum", "nonherm-factor", "bra-perturbed", "nonherm-mpdm"])
+    if variant == "bra-perturbed":
+        n = max(n, 2)        # MatrixProduct.add of one-site chains returns a (2,p,1) site (C03's business)
+    basis = []
+    for i in range(n):
+        basis.append(BasisHalfSpin(("s", i)) if rng.random() < 0.7 else BasisSHO(("v", i), 1.0, rng.randint(2, 3)))
+    model = Model(basis, [])
+    ratio = 10.0 ** (-rng.uniform(4.0, 9.0)) * rng.choice([1, -1])
+    e0 = rng.choice([1.0, 7.0, 7.0, 30.0, -12.0])
+    cplx_ket = variant in ("nonherm-sum", "nonherm-factor") and rng.random() < 0.4
+    ket, _ = rand_mps(rng, nprng, model, "free", 0, cplx_ket)
+    ket.normalize("mps_only")
+    ket.coeff = 1
+
+    def real_term():
+        i = rng.randrange(n)
+        s, d = site_symbols(model.basis[i], False)[1 if isinstance(model.basis[i], BasisHalfSpin) else 0]   # sigma_z / b^dagger b
+        return i, s, d
+    dof0 = model.basis[0].dof
+    i1, s1, d1 = real_term()
+    i2, s2, d2 = real_term()
+    bra = None
+    if variant == "nonherm-factor":
+        op = Op(s1, d1, complex(e0, e0 * ratio))
+    elif variant in ("nonherm-sum", "nonherm-mpdm"):
+        # H - i Gamma/2 n : large real part from the constant and a real term, tiny anti-Hermitian part
+        op = Op("I", dof0, complex(e0, 0.0)) + Op(s1, d1, complex(0.5, 0.0)) + Op(s2, d2, complex(0.0, e0 * ratio))
+    else:
+        op = Op("I", dof0, e0) + Op(s1, d1, 0.5)
+        chi, _ = rand_mps(rng, nprng, model, "free", 0, False)
+        chi.normalize("mps_only")
+        bra = ket.to_complex().add(chi.to_complex().scale(1j * ratio * 10))
+    if variant == "nonherm-mpdm":
+        ket = MpDm.from_mps(ket)
+        for i in range(len(ket)):
+            ket[i] = ket[i].array + 0.3 * nprng.normal(size=ket[i].shape)
+    other = Op(s2, d2, 1.0) if variant != "bra-perturbed" else Op(s2, d2, 2.0)
+    mpo, mpo2 = Mpo(model, op), Mpo(model, other)
+    lst = [mpo, mpo2, mpo]
+    k_pos = [0, 2]
+    if rng.random() < 0.5:
+        lst = [mpo2, mpo]
+        k_pos = [1]
+    psi = dense_state(ket)
+    self_conj = None if bra is None else bra.conj()
+    x = psi.conj() if bra is None else dense_state(bra).conj()
+    o = np.asarray(mpo.todense())
+    ref = complex(dense_bilinear(x, o, psi))
+    sc = np.linalg.norm(x) * np.linalg.norm(psi) * max(np.linalg.norm(o, 2), 1e-300)
+    info = {"kind": "small-imag", "variant": variant, "n": n, "ratio": ratio, "e0": e0, "dense": repr(ref),
+            "im_over_re": (abs(ref.imag) / abs(ref.real)) if ref.real != 0 else None}
+    nchecks = 0
+    try:
+        one = ket.expectation(mpo, self_conj=self_conj)
+        fast = ket.expectations(lst, self_conj=self_conj)
+        slow = ket.expectations(lst, self_conj=self_conj, opt=False)
+    except Exception as e:
+        fails.append({"check": "small-imag-raised", "error": repr(e)})
+        return info, fails, 1
+    got = [("expectation", one)] + [("expectations-fast", fast[k]) for k in k_pos] + [("expectations-slow", slow[k]) for k in k_pos]
+    if variant == "bra-perturbed":
+        from renormalizer.mps.mps import BraKetPair
+        got.append(("braketpair", BraKetPair(bra, ket, mpo).ft / (np.conj(bra.coeff) * ket.coeff)))
+    for name, v in got:
+        nchecks += 1
+        for which, err, tol in part_errors(v, ref, sc):
+            fails.append({"check": "small-imag-" + name, "part": which, "impl": repr(complex(v)), "dense": repr(ref),
+                          "err": float(err), "allowed": float(tol), "returned_type": type(v).__name__})
+    # single vs batched, part by part
+    for k in k_pos:
+        nchecks += 1
+        a, b = complex(one), complex(fast[k])
+        if abs(a.imag - b.imag) > max(DROP if abs(ref.imag) <= DROP else 0.0, 1e-6 * abs(ref.imag) + 1e-12 * sc) or \
+           abs(a.real - b.real) > 1e-9 * abs(ref.real) + 1e-12 * sc:
+            fails.append({"check": "small-imag-single-vs-batched", "single": repr(a), "batched": repr(b), "dense": repr(ref)})
+    return info, fails, nchecks
+
+
 def replay(seed, idx):
     info, fails, n = run_case(seed, idx)
+    info2, fails2, n2 = run_smallimag_case(seed, idx)
     print(json.dumps(info))
+    print(json.dumps(info2))
+    fails = fails + fails2
     for f in fails[:5]:
         print("FAIL", json.dumps(f, default=str))
     return 1 if fails else 0
@@ -473,6 +584,14 @@ def main():
     for idx in range(start, start + count):
         try:
             info, fails, n = run_case(seed, idx)
+            info2, fails2, n2 = run_smallimag_case(seed, idx)
+            fails = fails + fails2
+            n += n2
+            out["hist"]["si=%s" % info2["variant"]] = out["hist"].get("si=%s" % info2["variant"], 0) + 1
+            r_ = info2.get("im_over_re")
+            if r_ is not None and r_ > 0:
+                dec = "si_ratio=1e%d" % int(np.floor(np.log10(r_)))
+                out["hist"][dec] = out["hist"].get(dec, 0) + 1
         except Exception as e:      # generator trouble (not the code under test)
             import traceback
             out["failures"].append({"check": "oracle-crash", "idx": idx, "error": repr(e), "tb": traceback.format_exc()[-1500:]})
